@@ -39,8 +39,18 @@ def _block_kw_lexed_as_name(raw):
         return False
 
 
+def _dot_case(raw):
+    from sqlparse import lexer, tokens as T
+    try:
+        toks = list(lexer.tokenize(raw))
+    except Exception:  # noqa
+        return False
+    return any(tt is T.Keyword and v.upper() == 'CASE' and i > 0 and toks[i - 1][1] == '.' for i, (tt, v) in enumerate(toks))
+
+
 # predicate(raw text, keyword skeleton)
 CLASS_PRED = {
+    'qualified-name-ending-in-case': lambda raw, s: _dot_case(raw),
     'for-while-loop-end-loop': lambda raw, s: bool(RX_FORLOOP.search(s)),
     'end-case-statement': lambda raw, s: bool(RX_ENDCASE.search(s)),
     'declare-before-begin': lambda raw, s: bool(RX_DECL_BEFORE_BEGIN.search(s)),
